@@ -45,18 +45,26 @@ package parser
 
 //@ func createXmlNamespaces(attrs) (r)
 //@   property C09 C15
-//@   ensures len(r) >= 1 && len(r) <= cap(r) && fresh(r)
+//@   uses xmlspec
+//@   ensures len(r) == 1 + nnPre(attrs, len(attrs)) && len(r) <= cap(r) && fresh(r)                  @xml-plus-one-per-declaration
+//@   ensures r[0].prefix == "xml" && r[0].value == "http://www.w3.org/XML/1998/namespace"          @the-xml-namespace-first
+//@   ensures forall k Int :: {attrs[k]} 0 <= k && k < len(attrs) && isNsDecl(attrs[k]) ==> r[1 + nnPre(attrs, k)].prefix == declPrefix(attrs[k]) && r[1 + nnPre(attrs, k)].value == attrs[k].Value     @every-declaration-in-order
 //@   loop 0
 //@     invariant 0 - 1 <= #k && #k < len(attrs) || (len(attrs) == 0 && #k == 0 - 1)
-//@     invariant len(ret) >= 1 && len(ret) <= cap(ret) && fresh(ret)
+//@     invariant len(ret) == 1 + nnPre(attrs, #k + 1) && len(ret) <= cap(ret) && fresh(ret)
+//@     invariant ret[0].prefix == "xml" && ret[0].value == "http://www.w3.org/XML/1998/namespace"
+//@     invariant forall j Int :: {attrs[j]} 0 <= j && j <= #k && isNsDecl(attrs[j]) ==> ret[1 + nnPre(attrs, j)].prefix == declPrefix(attrs[j]) && ret[1 + nnPre(attrs, j)].value == attrs[j].Value
 //@     decreases len(attrs) - #k
 
 //@ func createXmlAttrs(attrs) (r)
 //@   property C09 C15
-//@   ensures len(r) <= len(attrs) && len(r) <= cap(r) && fresh(r)
+//@   uses xmlspec
+//@   ensures len(r) == naPre(attrs, len(attrs)) && len(r) <= cap(r) && fresh(r)                      @as-many-as-ordinary-attributes
+//@   ensures forall k Int :: {attrs[k]} 0 <= k && k < len(attrs) && !isNsDecl(attrs[k]) ==> r[naPre(attrs, k)].space == attrs[k].Name.Space && r[naPre(attrs, k)].local == attrs[k].Name.Local && r[naPre(attrs, k)].value == attrs[k].Value     @every-ordinary-attribute-in-order
 //@   loop 0
 //@     invariant 0 - 1 <= #k && #k < len(attrs) || (len(attrs) == 0 && #k == 0 - 1)
-//@     invariant len(ret) <= #k + 1 && len(ret) <= cap(ret) && fresh(ret)
+//@     invariant len(ret) == naPre(attrs, #k + 1) && len(ret) <= cap(ret) && fresh(ret)
+//@     invariant forall j Int :: {attrs[j]} 0 <= j && j <= #k && !isNsDecl(attrs[j]) ==> ret[naPre(attrs, j)].space == attrs[j].Name.Space && ret[naPre(attrs, j)].local == attrs[j].Name.Local && ret[naPre(attrs, j)].value == attrs[j].Value
 //@     decreases len(attrs) - #k
 
 // ---------- encoding/json (assumed) ----------
@@ -156,17 +164,20 @@ package parser
 //@ extern strings.SplitN(s, sep, n) (r)
 //@   uses strfn
 //@   ensures fresh(r) && len(r) >= 1 && len(r) <= cap(r)
-//@   ensures n == 2 && sindex(s, sep) >= 0 ==> len(r) == 2
+//@   ensures n == 2 && sindex(s, sep) >= 0 ==> len(r) == 2 && r[0] == ssub(s, 0, sindex(s, sep)) && r[1] == ssub(s, sindex(s, sep) + len(sep), len(s))
 
 //@ func getLocalName(name) (r)
 //@   property C17 C15
-//@   uses strfn
+//@   uses htmllocal
+//@   ensures r == htmlLocal(name)                                              @the-part-after-the-first-colon
 
 //@ func createHtmlAttrs(attrs) (r)
 //@   property C17 C15
-//@   uses strfn
-//@   ensures len(r) <= len(attrs) && len(r) <= cap(r)
+//@   uses htmlattr
+//@   ensures len(r) == haPre(attrs, len(attrs)) && len(r) <= cap(r)                                  @as-many-as-ordinary-attributes
+//@   ensures forall k Int :: {attrs[k]} 0 <= k && k < len(attrs) && !isHtmlDecl(attrs[k]) ==> r[haPre(attrs, k)].local == htmlLocal(attrs[k].Key) && r[haPre(attrs, k)].value == attrs[k].Val     @every-ordinary-attribute-in-order-without-prefix
 //@   loop 0
 //@     invariant 0 - 1 <= #k && #k < len(attrs) || (len(attrs) == 0 && #k == 0 - 1)
-//@     invariant len(ret) <= #k + 1 && len(ret) <= cap(ret) && fresh(ret)
+//@     invariant len(ret) == haPre(attrs, #k + 1) && len(ret) <= cap(ret) && fresh(ret)
+//@     invariant forall j Int :: {attrs[j]} 0 <= j && j <= #k && !isHtmlDecl(attrs[j]) ==> ret[haPre(attrs, j)].local == htmlLocal(attrs[j].Key) && ret[haPre(attrs, j)].value == attrs[j].Val
 //@     decreases len(attrs) - #k
